@@ -1168,6 +1168,11 @@ class Slave(logging_utils.LoggableMixin):
 
                 await port.handle_attr_change(name, value)
 
+        # Attributes and value that are pending provisioning must survive the replacement of the cache
+        attrs.update(provisioning_attrs)
+        if port.get_provisioning_value() is not None:
+            attrs.pop('value', None)
+
         port.update_cached_attrs(attrs)
         await port.update_enabled()
 
